@@ -1696,7 +1696,13 @@ std::string causeTag(const Deck& sub) {
             const DeckKeyword& prev = sub[pi - 1];
             if (prev.size() > 0) {
                 const DeckRecord& r = prev.getRecord(prev.size() - 1);
-                if (r.size() > 0) { const DeckItem& it = r.getItem(r.size() - 1); if (it.data_size() > 0 && it.defaultApplied(it.data_size() - 1)) return ".after_pending_default"; }
+                // the last value of the record (items without values skipped) is defaulted: the writer keeps a pending repeat count
+                for (size_t ii = r.size(); ii > 0; --ii) {
+                    const DeckItem& it = r.getItem(ii - 1);
+                    if (it.data_size() == 0) continue;
+                    if (it.defaultApplied(it.data_size() - 1)) return ".after_pending_default";
+                    break;
+                }
             }
         }
         return "";
